@@ -165,6 +165,8 @@ ITEMS = location_types() + budget_types() + error_types() + [
                 rest0.len() > 0 && !(rest0[0] is SeqEnd) && r is Ok ==>
                     exists|rl: Location| r == #[trigger] elem_seed_result(seed, rest0, old(self).cfg, rl, rest0[0].spec_location()) })'''),
                   ('config_unchanged', 'final(self).cfg == old(self).cfg')],
+         proofs=[dict(before='seed_deserialize_element(seed, self.ev, self.cfg, reference_location, defined_location)', label='C16:an_element_error_site_is_the_element_or_the_alias_token_that_stands_for_it',
+                      text='assert(self.ev.rest().len() > 0 && reference_location == spec_use_site(self.ev.use_site_override(), self.ev.rest()[0]) && defined_location == self.ev.rest()[0].spec_location());')],
          canaries=['C05:a_sequence_ends_exactly_at_its_end_event_which_is_left_for_the_caller']),
     # ---- booleans (C06) ----
     dict(src='src/parse_scalars.rs', path='fn parse_yaml11_bool', props=['C06', 'C01'],
